@@ -46,8 +46,16 @@ def ob(transport: str, hname: str, nchunks: int, cb: int, timeout: float) -> Obl
     body = (f"return connection_loss_ok({transport!r}, {frames!r}, cut, [{', '.join(f'k{i}' for i in range(nchunks))}], "
             f"nchannels=2, cb_channel={cb}" + (", cb_dropped=dropped" if cb >= 0 else "") + ")\n")
     src = e1.make_module(PRELUDE, "h", ", ".join(params), pres, body)
+    probes = []
+    for c in sorted({3, 11, total - 1}):
+        if 0 < c < total:
+            a = {"cut": c}
+            a.update({f"k{i}": False for i in range(nchunks)})
+            if cb >= 0:
+                a["dropped"] = False
+            probes.append(a)
     return Obligation(name=f"cut_{transport}_{hname}_cb{cb}_chunks{nchunks}", module_src=src, fn="h", timeout=timeout,
-                      meta={"transport": transport, "history": hname, "wire_bytes": total, "callback_channel": cb})
+                      meta={"transport": transport, "history": hname, "wire_bytes": total, "callback_channel": cb, "probes": probes})
 
 
 def build(tier: str) -> list[Obligation]:
